@@ -23,13 +23,13 @@ inline bool isDeclPosition(const Expr& parent, size_t index) {
   switch (parent.id) {
     case TID::FORALL: case TID::EXISTS: case TID::NT_DECLARATIVE_EXPR: case TID::NT_RECURSIVE_FULL: case TID::NT_RECURSIVE_SHORT: case TID::ITERATE: case TID::ASSIGN: return index == 0;
     case TID::NT_TUPLE_DECL: case TID::NT_ENUM_DECL: return true;
-    case TID::NT_FUNC_CALL: return index == 0;
+    case TID::NT_FUNC_CALL: case TID::PUNC_DEFINE: case TID::PUNC_STRUCT: case TID::NT_ARG_DECL: return index == 0;
     default: return false;
   }
 }
 inline void collectTermSlots(Expr& e, std::vector<Slot>& out) {
   for (size_t i = 0; i < e.kids.size(); ++i) {
-    if (isDeclPosition(e, i)) { if (e.kids[i]->id == TID::NT_TUPLE_DECL || e.kids[i]->id == TID::NT_ENUM_DECL) continue; if (e.id != TID::NT_FUNC_CALL) continue; else continue; }
+    if (isDeclPosition(e, i)) continue;
     if (isTermNode(*e.kids[i])) out.push_back({&e, i});
     collectTermSlots(*e.kids[i], out);
   }
